@@ -5,8 +5,8 @@ F = "C20_cycles.py"
 
 def spec(tier):
     q = tier == "quick"
-    obs = parts("G.cycles", F, "cycles", 16, 280 if q else 3000, path_timeout=120,
-                what="every functional graph on N nodes (successor of each node = symbolic index) for 15 catalogue shapes (USE, EXTENDS in one file / across files, submodule ancestry, pointer links, ASSOCIATE, procedure pointers, mixed data/procedure pointers, type-bound + GENERIC bindings, dummy procedures whose interface is an enclosing procedure, INCLUDE, INCLUDE cycle with two outside includers, INCLUDE inside included procedures, USE cycles crossed with pointer links, INCLUDE of shared content two scopes deep) rendered to source, indexed through didOpen in 4 file-opening orders and through the real workspace_init (directory walk and process pool replaced by stand-ins) in up to 12 (quick) / 24 (thorough) enumeration orders, then documentSymbol + all 9 positional requests at both ends of every identifier; no error response, no error message, ranges inside the document")
+    obs = parts("G.cycles", F, "cycles", 16, 280 if q else 5000, path_timeout=120,
+                what="every functional graph on N nodes (successor of each node = symbolic index) for 15 catalogue shapes (USE, EXTENDS in one file / across files, submodule ancestry, pointer links, ASSOCIATE, procedure pointers, mixed data/procedure pointers, type-bound + GENERIC bindings, dummy procedures whose interface is an enclosing procedure, INCLUDE, INCLUDE cycle with two outside includers, INCLUDE inside included procedures, USE cycles crossed with pointer links, INCLUDE of shared content two scopes deep) rendered to source, indexed through didOpen in 4 file-opening orders and through the real workspace_init (directory walk and process pool replaced by stand-ins) in up to 12 enumeration orders, then documentSymbol + all 9 positional requests at both ends of every identifier; no error response, no error message, ranges inside the document")
     L = "C20_links.py"
     obs += parts("S.var_links", L, "var_links", 4, 250 if q else 1500, what="TRACED: Variable/Method.resolve_link + links_back on N<=4 nodes with symbolic successor indices (pointer and procedure-pointer links), two resolution rounds: delegation chains acyclic, every delegating getter returns")
     obs += parts("S.type_links", L, "type_links", 4, 250 if q else 1500, what="TRACED: Type.resolve_inherit/_extends_self/get_overridden/get_children on N<=4 mutually extending types, two rounds")
